@@ -400,7 +400,7 @@ class GaussianModes:
             modes = list(range(self.nlen))
 
         alpha = np.zeros(len(modes))
-        return self.fidelity_coherent(alpha)
+        return self.fidelity_coherent(alpha, modes)
 
     def Amat(self):
         """Constructs the A matrix from Hamilton's paper"""
